@@ -135,8 +135,8 @@ func runRelayer(c RelCase, id string) Outcome {
 func TestC02_SingleUse(t *testing.T) {
 	RunProp(t, Prop[RelCase]{
 		ID: "C02", Name: "single-use", Quick: 640, Thor: 10_000,
-		Gen: genRelCase("C02"),
-		Run: func(c RelCase) Outcome { return runRelayer(c, "C02") },
+		Gen:  genRelCase("C02"),
+		Run:  func(c RelCase) Outcome { return runRelayer(c, "C02") },
 		Rule: "histories of 6-40 blocks over: voted messages of the five kinds (honest and the C01 fault classes), replay of any earlier accepted vote in a freshly signed transaction (verbatim or with its sequence and epoch fields rewritten to the current values), the same Votes under another message kind/payload, genuine votes over bodies that fail after the signature check (existing key, unknown withdrawal), failing non-voted messages, registrations, acceptances, two voted messages for one sequence in a block, add/remove requests and block times that trigger elections; reference: sequence += accepted voted txs, randao = SHA256(randao || signature) folded in order, accepted-flag; every rejected/failed transaction must leave the four module stores identical to the twin execution without it; non-trivial = history with an accepted vote followed by a reuse or a post-signature failure; evaluations count blocks",
 	})
 }
@@ -144,8 +144,8 @@ func TestC02_SingleUse(t *testing.T) {
 func TestC16_Group(t *testing.T) {
 	RunProp(t, Prop[RelCase]{
 		ID: "C16", Name: "group", Quick: 640, Thor: 10_000,
-		Gen: genRelCase("C16"),
-		Run: func(c RelCase) Outcome { return runRelayer(c, "C16") },
+		Gen:  genRelCase("C16"),
+		Run:  func(c RelCase) Outcome { return runRelayer(c, "C16") },
 		Rule: "histories over group sizes 1-8: add/remove requests (members, the proposer, duplicates, strangers, re-joining addresses, removal storms), registrations with genuine proofs or one forged element (other tx key, other BLS key, other chain id/epoch/proposer/registration height, proofs by other keys), acceptances (right/wrong epoch, late, twice), voted messages signed by the live group, block times just below/at/above the electing period and the accept timeout; after every block: one proposer who has a record (activated or off-boarding) and is not a voter, distinct members with records, member set = reference set ((members + on-boarded) - off-boarded applied exactly at elections, removals that would empty the group ignored), epoch and last-elected follow the timing rule exactly, forged/replayed registrations rejected with no state change (twin), FinalizeBlock never fails; non-trivial = an election applying both a join and a leave, a refused removal, or a registration followed by an election",
 	})
 }
